@@ -9,13 +9,94 @@ PKG = "vdr/didnuts"
 HARNESS = ["vdr/didnuts/zz_verif_c09_test.go"]
 
 REQUIRED = ["accepted_create_sound", "accepted_create_signed_by_did_key", "accepted_update_sound",
-            "accepted_update_signed_by_controller_key", "callback_accepts_iff", "reprocess_is_callback_again", "resolvable_only_if_accepted", "rejected_inert", "accepted_changes_own_did_only",
+            "accepted_update_signed_by_controller_key", "accepted_update_authorised_under_every_named_version", "signing_time_irrelevant_when_prevs_pin", "callback_accepts_iff", "reprocess_is_callback_again", "resolvable_only_if_accepted", "rejected_inert", "accepted_changes_own_did_only",
             "controller_chain_bounded", "controller_cycle_refused", "deactivated_controller_rejected",
             "controllers_never_deactivated", "controller_versions_are_active", "validator_rules_partial", "validator_rules_embedded_witness", "deactivated_controller_latest_witness", "removed_key_rejected", "removed_key_rejected_self_controlled",
             "validator_rules_sound_complete", "validator_rules_each_necessary",
             "fact_network_validators", "fact_wiring", "fact_succeeded_version_and_key_collection", "fact_entry_id_owner_is_document", "fact_verifier_always_verifies", "fact_thumbprint_rule_for_every_type", "fact_call_sites", "fact_comparisons", "fact_thumbprint_from_key_material", "fact_entry_id_checks", "fact_validator_scope", "fact_max_controller_depth",
             "fact_resolve_conditions", "fact_controller_skips", "fact_create_update_split", "fact_callback_steps",
             "fact_store_calls", "fact_update_steps", "fact_ambassador_controller_resolution", "fact_key_resolver"]
+
+FULL_DOC_RE = re.compile(r"doc=(\S+?)\{Context:\[[^\]]*\];Controller:\[([^\]]*)\];VerificationMethod:\[([^\]]*)\];Authentication:\[[^\]]*\];"
+                         r"AssertionMethod:\[[^\]]*\];CapabilityInvocation:\[([^\]]*)\];CapabilityDelegation:\[[^\]]*\];KeyAgreement:\[[^\]]*\];Service:\[([^\]]*)\]")
+
+
+def obs_map(obs):
+    """observation -> {did: {probe label: result string}}"""
+    parts = obs.split(" || ")
+    table = {}
+    for t in parts[1:]:
+        k, _, v = t.partition("=")
+        table[k] = v
+    out, cur = {}, None
+    for seg in parts[0].split(" | "):
+        if seg.startswith("DID "):
+            cur = seg[4:]
+            out[cur] = {}
+        elif cur and ":#" in seg:
+            label, _, ref = seg.partition(":")
+            out[cur][label] = table.get(ref, "")
+    return out
+
+
+def parse_version(res):
+    """a Resolve result string -> (controllers, capabilityInvocation key names, deactivated flag) or None"""
+    if not res.startswith("ok "):
+        return None
+    m = DOC_RE.search(res)
+    if not m:
+        return None
+    ctrl = [x.split("=")[0] for x in m.group(2).split(",") if x]
+    keys = [x.split("=", 1)[1] for x in m.group(4).split(",") if "=" in x]
+    return ctrl, keys, "deact=true" in res
+
+
+def strict_update_check(prev_obs, refs, did, tx):
+    """accepted update => the signer is authorised under EVERY version of the DID that the transaction's prevs name (the latest
+    one when they name none): listed for capabilityInvocation by the version itself if it controls itself, or by a controller
+    version that the prevs pin. Returns a description of the failing version, or None (also when the case needs the signing-time
+    fallback or deeper controller chains, which this oracle does not judge)."""
+    om = obs_map(prev_obs)
+    idx = {r: i for i, r in enumerate(refs)}
+    mine = om.get(did, {})
+    named = []
+    for p in tx["prevs"]:
+        r = mine.get(f"s{idx[p]}", "") if p in idx else ""
+        if r.startswith("ok ") and r not in named:
+            named.append(r)
+    if not named:
+        r = mine.get("ad", "")
+        if not r.startswith("ok "):
+            return None
+        named = [r]
+    for r in named:
+        v = parse_version(r)
+        if v is None:
+            return None
+        ctrl, keys, _ = v
+        allowed, pinned_any = set(), False
+        if (not ctrl or did in ctrl) and keys:
+            allowed |= set(keys)
+            pinned_any = True
+        for c in ctrl:
+            if c == did:
+                continue
+            for p in tx["prevs"]:
+                rc = om.get(c, {}).get(f"s{idx[p]}", "") if p in idx else ""
+                cv = parse_version(rc)
+                if cv is None:
+                    continue
+                cctrl, ckeys, cdeact = cv
+                if cdeact or any(x != c for x in cctrl):
+                    return None          # deactivated / indirectly controlled controller version: not judged here
+                if ckeys:
+                    allowed |= set(ckeys)
+                    pinned_any = True
+        if pinned_any and tx["signer"] not in allowed:
+            m = re.search(r"hash=(\S+)", r)
+            return f"version {m.group(1) if m else '?'} of {did} (controllers {ctrl or '-'})"
+    return None
+
 
 DOC_RE = re.compile(r"doc=(\S+?)\{Context:\[[^\]]*\];Controller:\[([^\]]*)\];VerificationMethod:\[([^\]]*)\];Authentication:\[[^\]]*\];"
                     r"AssertionMethod:\[[^\]]*\];CapabilityInvocation:\[([^\]]*)\]")
@@ -50,6 +131,10 @@ def latest_deactivated(obs):
 
 def stored_vm_mismatch(obs):
     """a verification method of a STORED document whose id fragment is not the thumbprint of its own key material"""
+    for m in FULL_DOC_RE.finditer(obs):
+        for x in m.group(5).split(","):
+            if x and not x.split("=")[0].startswith(m.group(1) + "#"):
+                return "service " + x.split("=")[0] + " of " + m.group(1)
     for m in DOC_RE.finditer(obs):
         for x in m.group(3).split(","):
             if "=" not in x:
@@ -159,6 +244,7 @@ def run(ctx):
     n_pairs = n_ok = n_embedded_illformed = n_deactivated_controller = n_deactivated_after = n_dag = n_reprocess = n_reprocess_changed = 0
     dag_classes = Counter()
     scripted_outcomes = Counter()
+    cur_refs = []
     created = set()        # DIDs with an accepted creation in the current history
     deactivations = {}     # tx ref -> DID that this accepted transaction deactivated (document without controller and capabilityInvocation)
     oracle = Counter()
@@ -184,6 +270,7 @@ def run(ctx):
         if op["op"] == "hist":
             cur_obs = line.split(" ", 2)[2] if line.count(" ") >= 2 else ""
             created, deactivations = set(), {}
+            cur_refs = (op.get("probes") or {}).get("refs", [])
             labels[re.sub(r"\d+$", "N", op.get("label", "?")) + ("/callback-only" if op.get("noVerify") else "/verifier+callback")] += 1
             verified = hist_verified = not op.get("noVerify")
             continue
@@ -318,6 +405,11 @@ def run(ctx):
                 report("accepted-update-by-key-of-deactivated-controller",
                        "update accepted although every controller that lists the signing key is deactivated at the time of the delivery "
                        "(the transaction's prevs name the controller's pre-deactivation transaction): " + ",".join(sorted(sources)), i)
+            bad_version = strict_update_check(prev_obs, cur_refs, doc["id"], tx)
+            if bad_version:
+                report("accepted-update-not-authorised-under-a-version-its-prevs-name",
+                       "update accepted although the signing key is not listed for capabilityInvocation by (a controller pinned by the "
+                       "prevs of) " + bad_version + ", which the transaction's prevs name", i)
             if not okk:
                 report("accepted-update-by-unlisted-key", "update accepted although the signing key is not listed for capabilityInvocation by a controller: "
                        "neither by a self-controlling stored version of the DID (no controller entries / lists itself) nor by a stored "
